@@ -92,6 +92,17 @@ Definition depth_at (code : list insn) (pc : nat) : option nat :=
   | None => None
   end.
 
+(* used by checks/c06.py on the real compiler's bytecode only (no theorem): some RETURN is
+   reached with an empty iterator stack.  The dataflow alone accepts a function whose
+   last loop lost its ITERPOP (every later pc is consistently one deeper, and RETURN is
+   legal at any depth); together with this test such code is rejected whenever the
+   function can return outside its loops. *)
+Definition return_at_zero (code : list insn) : bool :=
+  match infer code with
+  | Some m => existsb (fun x => match x with (RETURN, Some O) => true | _ => false end) (combine code m)
+  | None => false
+  end.
+
 (* ---------------------------------------------------------------- total annotations *)
 Definition ann_at (code : list insn) (ann : list nat) (pc : nat) : bool :=
   match nth_error code pc, nth_error ann pc with
